@@ -151,6 +151,10 @@ class ReadArbitrary(Unit):
             raise EngineError('conformance: symbolic outcome %r vs native %r %r on %r' % (sym, kind, val, data))
 
     def replay(self, model, label):
+        if label.startswith('frame.'):
+            rp = replay_read_history()
+            if rp['confirmed']:
+                return rp
         data = self._concrete_stream(lambda k, dflt=0: model.get(k, dflt))
         return replay_read(self.cls, data)
 
@@ -158,6 +162,10 @@ class ReadArbitrary(Unit):
         """Bounded stand-in (cross-check of the engine, not counted as proof): every stream up to 2 bytes,
         every continuation shape up to max_bytes+3 with boundary payloads."""
         fails, n = [], 0
+        rp = replay_read_history(rng)
+        n += rp['n']
+        if rp['confirmed']:
+            fails.append(dict(call=rp['call'], observed=rp['observed'], witness='read-history'))
         mb = NOMINAL[self.cls.__name__]
         cases = [bytes([a]) for a in range(256)] + [b'']
         cases += [bytes([a, b]) for a in (0, 1, 0x7f, 0x80, 0x81, 0xff) for b in range(256)]
@@ -171,8 +179,32 @@ class ReadArbitrary(Unit):
             if rp['confirmed']:
                 fails.append(dict(call=rp['call'], observed=rp['observed'], witness='read:' + data.hex()))
         return dict(name=self.name + '.enumeration', bound='all streams <= 1 byte, 6x256 two-byte streams, '
-                    'continuation shapes up to max_bytes+3', evaluations=n, failures=fails,
-                    exhaustive_for_bound=True)
+                    'continuation shapes up to max_bytes+3; 40 seeded histories of 8 reads mixing VarInt and VarLong',
+                    evaluations=n, failures=fails[:3], exhaustive_for_bound=True)
+
+
+def replay_read_history(rng=None):
+    """HISTORIES of reads that mix VarInt and VarLong on short, long, over-long and truncated encodings: every call is
+    judged on its own input, whatever was decoded before (seeded change C03-r10: a lazily grown class-level table shared by
+    the two classes, with the over-long test only where the table grows)."""
+    import random
+    rng = rng or random.Random(5)
+    shapes = [b'\x00', b'\x7f', b'\x80\x01', b'\xff' * 4 + b'\x0f', b'\xff' * 4 + b'\x7f', b'\x80' * 5 + b'\x01',
+              b'\xff' * 6 + b'\x01', b'\xff' * 9 + b'\x01', b'\x80' * 9 + b'\x7f', b'\xff' * 10 + b'\x01', b'\x80' * 11 + b'\x00',
+              b'\xff' * 12 + b'\x01', b'\x80' * 3, b'']
+    n = 0
+    for _ in range(40):
+        hist = []
+        for step in range(8):
+            n += 1
+            cls = rng.choice([VarInt, VarLong])
+            data = rng.choice(shapes)
+            hist.append('%s(%s)' % (cls.__name__, data.hex() or "''"))
+            rp = replay_read(cls, data)
+            if rp['confirmed']:
+                return dict(confirmed=True, n=n, call='history of reads in one process: ' + ', '.join(hist),
+                            observed='last call: ' + rp['observed'])
+    return dict(confirmed=False, n=n, call='read histories', observed='conform')
 
 
 def replay_read(cls, data):
